@@ -119,6 +119,7 @@ func init() {
 			}
 			seen := 0
 			eager := r.Intn(3) == 0
+			crashy := r.Intn(5) == 0
 			known := map[string]int{} // what workers believe: task id -> counter from the last message
 			steps := 25 + r.Intn(40)
 			for i := 0; i < steps; i++ {
@@ -175,6 +176,10 @@ func init() {
 					}
 				}
 				s.Tick(s.now + pick(r, int64(0), 1, 1, 1, 2, 4))
+				if crashy && r.Intn(15) == 0 {
+					// the server is restarted on the same database: a holder's lease keeps running, counters stay
+					s.Crash()
+				}
 			}
 			if !s.Drain(1, 300) {
 				c.Rep.Inconclusive++
@@ -321,6 +326,7 @@ var cronFamilies = []string{
 	"* * * * *", "*/2 * * * *", "0 * * * *", "30 4 * * *", "0 0 1 * *", "15 10 * * 1",
 	"@every 1s", "@every 3s", "@every 90s", "@every 1m", "@hourly", "@daily",
 	"0 0 29 2 *", "0 12 15 * 5", "@weekly",
+	"TZ=Asia/Tokyo 0 9 * * *", "CRON_TZ=Asia/Kolkata */20 * * * *", "TZ=UTC 30 * * * *", "TZ=America/Phoenix 15 3 * * *",
 }
 
 func init() {
@@ -383,6 +389,19 @@ func init() {
 					}
 				case x < 8 && r.Intn(3) == 0:
 					s.Crash()
+				case x < 11:
+					// somebody reads one of the stored promises (scheduled or created by a user): what a firing did to one
+					// promise must not show on another
+					var pids []string
+					for id := range s.snap.P {
+						pids = append(pids, id)
+					}
+					sort.Strings(pids)
+					if len(pids) > 0 {
+						s.Submit("u", reqRead(pids[r.Intn(len(pids))]))
+					} else {
+						s.Submit("u", reqCreate(fmt.Sprintf("plain%d", i), nil, false, s.now+100000, nil, "user"))
+					}
 				}
 				// clock advance patterns: small steps, exact periods, jumps over many occurrences
 				dt := pick(r, int64(1), 200, 500, 1000, 1000, 1000, 2000, 5000, 61000, 3600000)
